@@ -22,7 +22,7 @@ from lib.coqgen import coq_str, coq_list
 ID = 'C08'
 COQ_CONE = ['Properties/C08.v']
 EXTRACT = 'Extract/C08Extract.v'
-DRIVER = ['ocaml/Flow_driver.ml', 'ocaml/C08_main.ml']
+DRIVER = ['ocaml/Pipeline_driver.ml', 'ocaml/Flow_driver.ml', 'ocaml/C08_main.ml']
 MONITORS = ['mon_c08']
 ASSUMPTIONS = [
     'the interference window is modelled at push granularity: the third party acts immediately before a push',
